@@ -121,6 +121,7 @@ PURE_EXTERNAL = {
     "copy.copy": lambda x: x.copy() if hasattr(x, "copy") else x,
     "unicodedata.category": unicodedata.category,
     "json.loads": lambda s_, *a, **k: __import__("json").loads(s_),
+    "xml.etree.ElementTree.fromstring": lambda s_, *a, **k: __import__("xml.etree.ElementTree").etree.ElementTree.fromstring(s_),
     "time.perf_counter": lambda: 0.0, "time.monotonic": lambda: 0.0, "time.time": lambda: 0.0, "time.process_time": lambda: 0.0,
     "fnmatch.filter": lambda names, pat: __import__("fnmatch").filter(list(names), pat),
     "fnmatch.fnmatch": lambda n, pat: __import__("fnmatch").fnmatch(n, pat),
@@ -718,6 +719,8 @@ class PureInterp:
             return o.maps
         if ("getattr:" + n.attr) in self.hooks:
             return self.hooks["getattr:" + n.attr](o)
+        if type(o).__name__ in ("Element", "Match") and type(o).__module__ in ("xml.etree.ElementTree", "re") and not callable(getattr(o, n.attr, None)) and hasattr(o, n.attr):
+            return getattr(o, n.attr)
         return ("method", o, n.attr)
 
     def e_JoinedStr(self, n, env, module, depth):
@@ -949,8 +952,10 @@ class PureInterp:
                     except (IndexError, ValueError, TypeError) as exc:
                         raise Raised(type(exc).__name__, str(exc))
                     return list(res) if name in ("items", "keys", "values") else res
-            if hasattr(recv, "group") and name in ("group", "groups"):
+            if hasattr(recv, "group") and name in ("group", "groups", "start", "end", "span", "groupdict"):
                 return getattr(recv, name)(*args)
+            if type(recv).__name__ == "Element" and type(recv).__module__ == "xml.etree.ElementTree" and name in ("iter", "find", "findall", "findtext", "get", "itertext", "getchildren"):
+                return getattr(recv, name)(*args, **kwargs)
             raise Unsupported(f"method {name} on {type(recv).__name__}")
         if isinstance(f, FuncRef):
             name = f.name
